@@ -219,8 +219,8 @@ def programs(tier):
     maxlets = 3
     for nlets in range(1, maxlets + 1):
         for seq in let_sequences(nlets, thorough):
-            if nlets == 3 and not thorough:
-                # quick: third binding must combine the two earlier ones (an operator
+            if nlets == 3:
+                # third binding must combine the two earlier ones (an operator
                 # over both) -- unary forms over one name were covered at nlets == 2
                 e = seq[2]
                 refs = {o[1] for o in e[1:] if isinstance(o, tuple) and len(o) == 2 and o[0] == "n"}
@@ -231,7 +231,9 @@ def programs(tier):
             scal = [f"x{j}" for j in range(nlets) if is_scalar(seq[j])]
             lets = [("let", f"x{j}", seq[j]) for j in range(nlets)]
             rsets = requirement_sets(scal, thorough)
-            if nlets == 3 and not thorough:
+            if nlets == 3 and thorough:
+                rsets = rsets[:1] + rsets[1:10:2] + rsets[-4:]
+            elif nlets == 3:
                 rsets = rsets[:1] + rsets[1:6:2] + rsets[-2:]
             for reqs in rsets:
                 obs = [("param", f"p{j}", N(f"x{j}")) for j in range(nlets)]
